@@ -203,6 +203,9 @@ func NewDutyTables() *DutyTables {
 // SetDuties installs the tables; Fail schedules n failures for the named endpoint
 // ("attester", "proposer", "sync", "validators"); Latency delays every duty call (virtual time).
 func (b *BN) SetDuties(t *DutyTables) { b.mu.Lock(); b.duties = t; b.mu.Unlock() }
+
+// MutateDuties changes the installed tables under the node's lock (a chain reorg changes assignments).
+func (b *BN) MutateDuties(f func(t *DutyTables)) { b.mu.Lock(); f(b.duties); b.mu.Unlock() }
 func (b *BN) Fail(endpoint string, n int) {
 	b.mu.Lock()
 	if b.fail == nil {
